@@ -82,7 +82,7 @@ let show (r : aresult option) : string =
     Printf.sprintf "dump=%s|%s" (hex_of_bytes d) (String.concat "," (Stdlib.List.map dtok ls))
   | Some RPanic -> "panic"
 
-let run (id : string) (ops : string list) (out : out_channel) =
+let parse (ops : string list) =
   let o = ref { o_lazy = false; o_nocopy = false; o_pool = false; o_skiprec = false; o_dsad = false } in
   let data = ref [] and first = ref Z0 and tbl = ref [] and prog = ref [] and real = ref false in
   Stdlib.List.iter (fun s ->
@@ -107,6 +107,11 @@ let run (id : string) (ops : string list) (out : out_channel) =
     | "du" -> prog := ADump :: !prog
     | "real" -> real := true
     | _ -> failwith ("pcore op: " ^ s)) ops;
+  (!o, !data, !first, !tbl, Stdlib.List.rev !prog, !real)
+
+let run (id : string) (ops : string list) (out : out_channel) =
+  let (o, data, first, tbl, prog, real) = parse ops in
+  let o = ref o and data = ref data and first = ref first and tbl = ref tbl and prog = ref (Stdlib.List.rev prog) and real = ref real in
   if !real then Printf.fprintf out "%s\ttags\timpl-only\n" id
   else begin
     let r = run_case fuel !tbl !data !first !o (Stdlib.List.rev !prog) in
@@ -138,3 +143,57 @@ let run (id : string) (ops : string list) (out : out_channel) =
          (show lr) (b01 p.p_trunc) (otok p.p_link) (otok p.p_network) (otok p.p_transport)
          (otok p.p_application) (otok p.p_failure))
   end
+
+(* ---- extraction cross-check inside Coq (see c18.ml), shared by C03 and C01core: PacketScript.run_case on
+   the case's table, data, first decoder, options and program, recomputed by vm_compute, must equal the
+   case_result this extracted runner computed (printed in full), and likewise the three hypothesis tests. *)
+let coq_term = function
+  | Ret -> "Ret" | Fail -> "Fail" | Next t -> "(Next " ^ coq_z t ^ ")" | NextNil -> "NextNil" | PanicT -> "PanicT"
+let coq_lspec (l : lspec) =
+  Printf.sprintf "mkLspec %s %s %s" (coq_z l.ls_type) (coq_nat l.ls_clen)
+    (match l.ls_pmode with PRest -> "PRest" | PEmpty -> "PEmpty" | PWhole -> "PWhole" | PConst b -> "(PConst " ^ coq_zlist b ^ ")")
+let coq_sact = function
+  | SAdd k -> "SAdd " ^ coq_nat k | SLink k -> "SLink " ^ coq_nat k | SNet k -> "SNet " ^ coq_nat k | STrans k -> "STrans " ^ coq_nat k
+  | SApp k -> "SApp " ^ coq_nat k | SErrL k -> "SErrL " ^ coq_nat k | STrunc -> "STrunc"
+let coq_variant (v : variant) =
+  Printf.sprintf "PacketScript.mkVariant %s %s %s %s" (coq_list coq_lspec v.v_layers) (coq_list coq_sact v.v_acts) (coq_term v.v_term)
+    (coq_option coq_term v.v_term_dsad)
+let coq_layer (l : layer) =
+  Printf.sprintf "(mkLayer %s %s %s %s)" (coq_z l.l_type) (coq_zlist l.l_contents) (coq_zlist l.l_payload) (coq_bool l.l_fail)
+let coq_opts (o : dopts) =
+  Printf.sprintf "(mkOpts %s %s %s %s %s)" (coq_bool o.o_lazy) (coq_bool o.o_nocopy) (coq_bool o.o_pool) (coq_bool o.o_skiprec) (coq_bool o.o_dsad)
+let coq_packet (p : packet) =
+  let ol = coq_option coq_layer in
+  Printf.sprintf "(mkPacket %s %s %s %s %s %s %s %s %s %s %s)" (coq_zlist p.p_data)
+    (match p.p_origin with DataAlias -> "DataAlias" | DataCopy -> "DataCopy" | DataPool -> "DataPool")
+    (coq_list coq_layer p.p_layers) (ol p.p_last) (coq_bool p.p_trunc) (coq_opts p.p_opts) (ol p.p_link) (ol p.p_network)
+    (ol p.p_transport) (ol p.p_application) (ol p.p_failure)
+let coq_accessor = function
+  | ALayer t -> "ALayer " ^ coq_z t | ALayerClass c -> "ALayerClass " ^ coq_zlist c
+  | ALinkLayer -> "ALinkLayer" | ANetworkLayer -> "ANetworkLayer" | ATransportLayer -> "ATransportLayer"
+  | AApplicationLayer -> "AApplicationLayer" | AErrorLayer -> "AErrorLayer" | ALayers -> "ALayers" | AString -> "AString" | ADump -> "ADump"
+let coq_aresult = function
+  | RLayer l -> "(RLayer " ^ coq_option coq_layer l ^ ")"
+  | RLayers ls -> "(RLayers " ^ coq_list coq_layer ls ^ ")"
+  | RString (n, tr, ls) -> Printf.sprintf "(RString %s %s %s)" (coq_nat n) (coq_bool tr) (coq_list coq_layer ls)
+  | RDump (d, ls) -> Printf.sprintf "(RDump %s %s)" (coq_zlist d) (coq_list coq_layer ls)
+  | RPanic -> "RPanic"
+let coq_new (r : anypacket nresult) = match r with
+  | NewOk (PEager p) -> "(NewOk (PEager " ^ coq_packet p ^ "))"
+  | NewOk (PLazy lp) -> Printf.sprintf "(NewOk (PLazy (mkLazy %s %s)))" (coq_packet lp.lp_p) (coq_option coq_z lp.lp_next)
+  | NewPanic -> "NewPanic" | NewFuel -> "NewFuel"
+
+let to_coq (idx : int) (ops : string list) (out : out_channel) =
+  let (o, data, first, tbl, prog, real) = parse ops in
+  if not real && Stdlib.List.length data <= 64 then begin
+    let r = run_case fuel tbl data first o prog in
+    let tbls = coq_list (coq_pair coq_z (coq_list coq_variant)) tbl in
+    coq_example out idx
+      (Printf.sprintf "run_case %s\n    %s\n    %s %s %s\n    %s" (coq_nat fuel) tbls (coq_zlist data) (coq_z first) (coq_opts o) (coq_list coq_accessor prog))
+      (Printf.sprintf "mkCaseResult\n    %s\n    %s\n    %s" (coq_new r.cr_new) (coq_list (coq_option coq_aresult) r.cr_steps)
+         (coq_option (coq_pair (coq_option coq_aresult) coq_packet) r.cr_final));
+    coq_example_named out (Printf.sprintf "sample_%d_hyps" idx)
+      (Printf.sprintf "(let tbl := %s in (table_F6b tbl, table_progressb tbl, table_no_seterrb tbl))" tbls)
+      (Printf.sprintf "(%s, %s, %s)" (coq_bool (table_F6b tbl)) (coq_bool (table_progressb tbl)) (coq_bool (table_no_seterrb tbl)))
+  end
+let coq_header = "From GP Require Import Base PacketCore PacketScript.\n"
